@@ -10,11 +10,30 @@ fn res(r: Result<SourceMap, rspack_sources::Error>) -> String {
   }
 }
 
+struct ShortWriter {
+  buf: Vec<u8>,
+  per_call: usize,
+}
+
+impl std::io::Write for ShortWriter {
+  fn write(&mut self, data: &[u8]) -> std::io::Result<usize> {
+    let n = data.len().min(self.per_call);
+    self.buf.extend_from_slice(&data[..n]);
+    Ok(n)
+  }
+  fn flush(&mut self) -> std::io::Result<()> {
+    Ok(())
+  }
+}
+
 pub fn jsonv_case(t: &mut Toks) -> String {
   let m = parse_smap(t);
   let tj = m.clone().to_json().expect("to_json");
-  let mut tw = Vec::new();
-  m.clone().to_writer(&mut tw).expect("to_writer");
+  // a writer that accepts only a few bytes per `write` call (sockets and pipes do that): the
+  // document must arrive complete whatever the writer's appetite
+  let mut sw = ShortWriter { buf: Vec::new(), per_call: tj.len() % 7 + 1 };
+  m.clone().to_writer(&mut sw).expect("to_writer");
+  let tw = sw.buf;
   format!(
     "tj={} tw={} rt={} rs={} rr={}",
     hex(tj.as_bytes()),
